@@ -229,10 +229,11 @@ class CallMixin:
                 return d
             src_arr = self.st.mem[sr.id]
             dst_arr = self.st.mem[dr.id]
-            ext_ = self._lit_extent(doff, dlen, soff, slen)
+            ext_ = self._lit_extent(doff, dlen, soff, slen, cnt)
             if cc is None and ext_ is not None:
                 # literal positions, symbolic count: element t is copied iff t < cnt (all array indices stay literal)
                 do, so, mx = ext_
+                mx = min(mx, self.upper_bound(cnt, mx))
                 vals = [z3.Select(src_arr, bv(so + t, 64)) for t in range(mx)]
                 for t, v in enumerate(vals):
                     keep = z3.Select(dst_arr, bv(do + t, 64))
@@ -270,7 +271,7 @@ class CallMixin:
             self._put(dr, doff + bv(i, 64), v)
         return d
 
-    def _lit_extent(self, doff, dlen, soff=None, slen=None):
+    def _lit_extent(self, doff, dlen, soff=None, slen=None, cnt=None):
         """(dst offset, src offset, max element count) when offsets and region lengths are literals and the extent is small"""
         do, dl = concrete(doff), concrete(dlen)
         if do is None or dl is None or do > dl:
@@ -282,6 +283,8 @@ class CallMixin:
             if so is None or sl is None or so > sl:
                 return None
             mx = min(mx, sl - so)
+        if cnt is not None and concrete(cnt) is None:
+            mx = min(mx, self.upper_bound(cnt, min(mx, 4096)))
         if mx > 64:
             return None
         return do, so, mx
@@ -327,9 +330,10 @@ class CallMixin:
             self._put(dr, doff, val)
             return d
         arr = self.st.mem[dr.id]
-        ext_ = self._lit_extent(doff, dlen)
+        ext_ = self._lit_extent(doff, dlen, cnt=cnt)
         if cc is None and ext_ is not None:
             do, _so, mx = ext_
+            mx = min(mx, self.upper_bound(cnt, mx))
             for t in range(mx):
                 keep = z3.Select(arr, bv(do + t, 64))
                 arr = z3.Store(arr, bv(do + t, 64), z3.If(z3.ULT(bv(t, 64), cnt), val, keep))
@@ -546,12 +550,14 @@ class CallMixin:
             old = self.st.mem[r.id]
             fr = self.fresh(r.name, arr_sort(r.bits))
             whole = z3.simplify(z3.And(off == 0, n == r.length))
-            ext_ = self._lit_extent(off, r.length)
+            ext_ = self._lit_extent(off, r.length, cnt=n)
             if z3.is_true(whole) and ext_ is None:
                 self.st.mem[r.id] = fr
             elif ext_ is not None:
                 do, _so, mx = ext_
                 nc = concrete(n)
+                if nc is None:
+                    mx = min(mx, self.upper_bound(n, mx))
                 arr = old
                 for t in range(mx if nc is None else min(mx, nc)):
                     nv = z3.Select(fr, bv(do + t, 64))
